@@ -12,8 +12,9 @@ CONSTANTS
   WriteMutex = TRUE
   WaitActivation = TRUE
   FixNonRequest = FALSE
+  FixCloseReason = FALSE
   MaxSteps = 60
 INIT MBTInit
 NEXT MBTNext
-INVARIANTS TypeOK POnePerFrame PContent PInvocations PWholeFrames PRespFIFO PNotesFIFO PAfterActivation PNoNoteAfterUnsub PClientView PReadLimit PCloseIsLast
+INVARIANTS TypeOK POnePerFrame PContent PInvocations PWholeFrames PRespFIFO PNotesFIFO PAfterActivation PNoNoteAfterUnsub PClientView PReadLimit PInternalClose PCloseIsLast
 CHECK_DEADLOCK FALSE
